@@ -4,6 +4,7 @@ package c15
 import (
 	"encoding/json"
 
+	"github.com/ovn-org/libovsdb/database"
 	"github.com/ovn-org/libovsdb/database/inmemory"
 	"github.com/ovn-org/libovsdb/model"
 	"github.com/ovn-org/libovsdb/ovsdb"
@@ -15,6 +16,8 @@ import (
 func named(n string) ovsdb.UUID { return ovsdb.UUID{GoUUID: n} }
 
 func set1(n string) ovsdb.OvsSet { return ovsdb.OvsSet{GoSet: []interface{}{named(n)}} }
+
+type inmemoryDB struct{ db database.Database }
 
 // symName is a symbolic uuid-name: any string that is not itself a valid UUID.
 func symName() string {
@@ -223,5 +226,104 @@ func VerifC15PlainTable() {
 		rt.Assert(res[4].Count == 1, "C15: the mutation applies")
 		_, ok := leaves[got]
 		rt.Assert(!ok && len(leaves) == 1, "C15: a name used as a mutation argument refers to the inserted row (it is dropped from the set and garbage-collected)")
+	}
+}
+
+// ---- same column name in two tables with different types; a lone insert referring to itself ----
+
+const schemaNames = `{"name":"V","version":"1.0.0","tables":{
+ "Note":{"isRoot":true,"columns":{"owner":{"type":"string"},"text":{"type":"string"}}},
+ "Item":{"isRoot":true,"columns":{
+   "owner":{"type":{"key":{"type":"uuid","refTable":"Boss"},"min":0,"max":1}},
+   "peer":{"type":{"key":{"type":"uuid","refTable":"Item"},"min":0,"max":1}},
+   "text":{"type":"string"}}},
+ "Boss":{"isRoot":true,"columns":{"text":{"type":"string"}}}}}`
+
+type noteN struct {
+	UUID  string `ovsdb:"_uuid"`
+	Owner string `ovsdb:"owner"`
+	Text  string `ovsdb:"text"`
+}
+
+type itemN struct {
+	UUID  string  `ovsdb:"_uuid"`
+	Owner *string `ovsdb:"owner"`
+	Peer  *string `ovsdb:"peer"`
+	Text  string  `ovsdb:"text"`
+}
+
+type bossN struct {
+	UUID string `ovsdb:"_uuid"`
+	Text string `ovsdb:"text"`
+}
+
+func newNamesDB() *inmemoryDB {
+	cm, err := model.NewClientDBModel("V", map[string]model.Model{"Note": &noteN{}, "Item": &itemN{}, "Boss": &bossN{}})
+	if err != nil {
+		panic(err)
+	}
+	db := inmemory.NewDatabase(map[string]model.ClientDBModel{"V": cm})
+	if err := db.CreateDatabase("V", fix.MustSchema(schemaNames)); err != nil {
+		panic(err)
+	}
+	return &inmemoryDB{db}
+}
+
+// VerifC15SameColumnName: a string column and a UUID column of two tables share their name; operations on both
+// tables, in either order, in one transaction that uses a name in the UUID column.
+func VerifC15SameColumnName() {
+	d := newNamesDB()
+	name := symName()
+	text := rt.String() // may equal the name
+	boss := ovsdb.Operation{Op: ovsdb.OperationInsert, Table: "Boss", UUIDName: name, Row: ovsdb.Row{"text": text}}
+	note := ovsdb.Operation{Op: ovsdb.OperationInsert, Table: "Note", UUID: fix.U1, Row: ovsdb.Row{"owner": text, "text": text}}
+	item := ovsdb.Operation{Op: ovsdb.OperationInsert, Table: "Item", UUID: fix.U2, Row: ovsdb.Row{"owner": set1(name), "text": text}}
+	orders := [][]ovsdb.Operation{{boss, note, item}, {note, boss, item}, {note, item, boss}, {item, note, boss}, {boss, item, note}, {item, boss, note}}
+	ops := orders[rt.Choose(len(orders))]
+	if rt.Choose(2) == 1 {
+		ops = wire(ops)
+	}
+	res := c04.Run(d.db, ops...)
+	rt.Reach("ran")
+	rt.Assert(!c04.Failed(res), "C15: a transaction using a name it defines is accepted")
+	if c04.Failed(res) {
+		return
+	}
+	bosses, _ := d.db.List("V", "Boss")
+	rt.Assert(len(bosses) == 1, "C15: the named row is stored")
+	var got string
+	for u := range bosses {
+		got = u
+	}
+	items, _ := d.db.List("V", "Item")
+	notes, _ := d.db.List("V", "Note")
+	it, _ := items[fix.U2].(*itemN)
+	nt, _ := notes[fix.U1].(*noteN)
+	rt.Assert(it != nil && it.Owner != nil && *it.Owner == got, "C15: a name in a UUID column refers to the inserted row, whatever same-named columns other tables have")
+	rt.Assert(nt != nil && nt.Owner == text && nt.Text == text, "C15: text equal to a name in a non-UUID column is left untouched")
+}
+
+// VerifC15Lone: a transaction of one operation: an insert whose row refers to itself by its own name.
+func VerifC15Lone() {
+	d := newNamesDB()
+	name := symName()
+	op := ovsdb.Operation{Op: ovsdb.OperationInsert, Table: "Item", UUIDName: name, Row: ovsdb.Row{"peer": set1(name), "text": name}}
+	ops := []ovsdb.Operation{op}
+	if rt.Choose(2) == 1 {
+		ops = wire(ops)
+	}
+	res := c04.Run(d.db, ops...)
+	rt.Reach("ran")
+	rt.Assert(!c04.Failed(res), "C15: a lone insert referring to itself by name is accepted")
+	if c04.Failed(res) {
+		return
+	}
+	items, _ := d.db.List("V", "Item")
+	rt.Assert(len(items) == 1, "C15: the row is stored")
+	for u, m := range items {
+		it := m.(*itemN)
+		rt.Assert(res[0].UUID.GoUUID == u, "C15: the UUID reported for the insert is the UUID the row is stored under")
+		rt.Assert(it.Peer != nil && *it.Peer == u, "C15: a row's own name, used in its own UUID column, refers to the row itself")
+		rt.Assert(it.Text == name, "C15: text equal to a name in a non-UUID column is left untouched")
 	}
 }
